@@ -15,7 +15,7 @@ VARIABLES c,     \* the Init line of the running history
           s      \* counters of the running history
 tvars == <<c, s, l, viol, vl>>
 
-S0 == [reqs |-> {}, answered |-> {}, pieces |-> 0, rejects |-> 0, tw |-> -1, tm |-> -1,     \* uploadq
+S0 == [reqs |-> {}, answered |-> {}, cancelled |-> {}, pieces |-> 0, rejects |-> 0, tw |-> -1, tm |-> -1,     \* uploadq
        out |-> {}, choking |-> TRUE]                                                        \* pipeline
 
 TraceInit == TraceInit0 /\ c = Trace[1] /\ s = S0
@@ -35,6 +35,10 @@ Step(v) == /\ IF v = "" THEN TRUE ELSE PrintT("@@VERDICT " \o ToString(l) \o " "
 \* processed - whatever the scripted reader's own delays are.
 Early == IF s.tw < 0 \/ s.tm - s.tw - c.period < 0 THEN 0 ELSE (s.tm - s.tw - c.period) \div c.period
 TrUQWarm == Ev.op = "UQWarm" /\ s' = [s EXCEPT !.tw = Ev.t] /\ Step("")
+\* a cancelled request may still be served (already in the writer's hand), refused, or simply never answered
+TrUQCancel == Ev.op = "UQCancel" /\ s' = [s EXCEPT !.cancelled = @ \cup {Ev.i}] /\ Step("")
+\* next round on the same connection, after a new warm-up: the accounting starts again, the connection state does not
+TrUQRound == Ev.op = "UQRound" /\ s' = [s EXCEPT !.pieces = 0, !.tw = -1, !.tm = -1] /\ Step("")
 TrUQReq == Ev.op = "UQReq" /\ s' = [s EXCEPT !.reqs = @ \cup {Ev.i}] /\ Step("")
 TrUQMarker == Ev.op = "UQMarker" /\ s' = [s EXCEPT !.tm = Ev.t] /\ Step("")
 TrUQPiece ==
@@ -45,7 +49,8 @@ TrUQPiece ==
 TrUQReject ==
     /\ Ev.op = "UQReject"
     /\ s' = [s EXCEPT !.answered = @ \cup {Ev.i}, !.rejects = @ + 1]
-    /\ Step(IF Ev.i \notin s.reqs \/ Ev.i \in s.answered \/ ~c.fast THEN "C17.uploadq.answer" ELSE "")
+    \* (with the fast extension rain answers every cancel with a reject, also for a request it has refused before)
+    /\ Step(IF Ev.i \notin s.reqs \/ (Ev.i \in s.answered /\ Ev.i \notin s.cancelled) \/ ~c.fast THEN "C17.uploadq.answer" ELSE "")
 \* @obligation C17.uploadq
 TrUQEnd ==
     /\ Ev.op = "UQEnd" /\ UNCHANGED s
@@ -99,7 +104,7 @@ TrHang == Ev.op = "Hang" /\ UNCHANGED <<c, s>> /\ SetViol("C17.sess.hang") /\ Ad
 TraceNext ==
     /\ l <= Len(Trace)
     /\ \/ TrReset \/ TrEnd \/ TrCrash \/ TrHang
-       \/ TrUQWarm \/ TrUQReq \/ TrUQMarker \/ TrUQPiece \/ TrUQReject \/ TrUQEnd
+       \/ TrUQWarm \/ TrUQCancel \/ TrUQRound \/ TrUQReq \/ TrUQMarker \/ TrUQPiece \/ TrUQReject \/ TrUQEnd
        \/ TrPLReq \/ TrPLGone \/ TrPLChoke \/ TrPLUnchoke \/ TrPLEnd
        \/ TrRamSnap \/ TrRamStats \/ TrRamRest \/ TrRamDone
        \/ TrWsSnap \/ TrWsHttp \/ TrWsEnd \/ TrRate \/ TrCfgDone \/ TrSkip
